@@ -118,3 +118,13 @@ Theorem C03_source_skeleton : forall flo fhi s xs,
   = map (gross_pt flo fhi s) xs.
 Proof. exact skel_gross_flags. Qed.
 Print Assumptions C03_source_skeleton.
+
+(* TRANSLATOR TIE, axds.valid_range_test: the skeleton generated from the CURRENT source (the four
+   comparison operators selected by `start_inclusive is True` / `end_inclusive is True`, the guards
+   `not isnan(valid_span[k])`, flag constants and order), run in the model's environment, yields exactly
+   the model's flags *)
+Theorem C03_source_skeleton_valid : forall lo hi si ei xs,
+  valid_model lo hi si ei xs =
+  Flags (run_steps (env_valid lo hi si ei xs) skel_valid_range_test (all_flags (length xs) GOOD)).
+Proof. exact skel_valid. Qed.
+Print Assumptions C03_source_skeleton_valid.
